@@ -8,3 +8,6 @@ mod bucket_list_result;
 mod bucket_object;
 mod bucket_object_field;
 mod downloaded_bucket_object;
+
+#[cfg(feature = "verif-hooks")]
+pub(crate) mod verif_hooks;
